@@ -27,6 +27,7 @@ type RTMetrics struct {
 	total           *RollingCounter
 	netErrors       *RollingCounter
 	statusCodes     map[int]*RollingCounter
+	countersLock    sync.Mutex
 	statusCodesLock sync.RWMutex
 	histogram       *RollingHDRHistogram
 	histogramLock   sync.RWMutex
@@ -82,8 +83,10 @@ func NewRTMetrics(settings ...RTOption) (*RTMetrics, error) {
 
 // Export Returns a new RTMetrics which is a copy of the current one.
 func (m *RTMetrics) Export() *RTMetrics {
-	m.statusCodesLock.RLock()
-	defer m.statusCodesLock.RUnlock()
+	m.countersLock.Lock()
+	defer m.countersLock.Unlock()
+	m.statusCodesLock.Lock()
+	defer m.statusCodesLock.Unlock()
 	m.histogramLock.RLock()
 	defer m.histogramLock.RUnlock()
 
@@ -108,12 +111,16 @@ func (m *RTMetrics) Export() *RTMetrics {
 
 // CounterWindowSize gets total windows size.
 func (m *RTMetrics) CounterWindowSize() time.Duration {
+	m.countersLock.Lock()
+	defer m.countersLock.Unlock()
 	return m.total.WindowSize()
 }
 
 // NetworkErrorRatio calculates the amont of network errors such as time outs and dropped connection
 // that occurred in the given time window compared to the total requests count.
 func (m *RTMetrics) NetworkErrorRatio() float64 {
+	m.countersLock.Lock()
+	defer m.countersLock.Unlock()
 	if m.total.Count() == 0 {
 		return 0
 	}
@@ -124,8 +131,8 @@ func (m *RTMetrics) NetworkErrorRatio() float64 {
 func (m *RTMetrics) ResponseCodeRatio(startA, endA, startB, endB int) float64 {
 	a := int64(0)
 	b := int64(0)
-	m.statusCodesLock.RLock()
-	defer m.statusCodesLock.RUnlock()
+	m.statusCodesLock.Lock()
+	defer m.statusCodesLock.Unlock()
 	for code, v := range m.statusCodes {
 		if code < endA && code >= startA {
 			a += v.Count()
@@ -146,15 +153,19 @@ func (m *RTMetrics) Append(other *RTMetrics) error {
 		return errors.New("RTMetrics cannot append to self")
 	}
 
-	if err := m.total.Append(other.total); err != nil {
-		return err
-	}
-
-	if err := m.netErrors.Append(other.netErrors); err != nil {
-		return err
-	}
-
 	copied := other.Export()
+
+	m.countersLock.Lock()
+	if err := m.total.Append(copied.total); err != nil {
+		m.countersLock.Unlock()
+		return err
+	}
+
+	if err := m.netErrors.Append(copied.netErrors); err != nil {
+		m.countersLock.Unlock()
+		return err
+	}
+	m.countersLock.Unlock()
 
 	m.statusCodesLock.Lock()
 	defer m.statusCodesLock.Unlock()
@@ -176,29 +187,35 @@ func (m *RTMetrics) Append(other *RTMetrics) error {
 
 // Record records a metric.
 func (m *RTMetrics) Record(code int, duration time.Duration) {
+	m.countersLock.Lock()
 	m.total.Inc(1)
 	if code == http.StatusGatewayTimeout || code == http.StatusBadGateway {
 		m.netErrors.Inc(1)
 	}
+	m.countersLock.Unlock()
 	_ = m.recordStatusCode(code)
 	_ = m.recordLatency(duration)
 }
 
 // TotalCount returns total count of processed requests collected.
 func (m *RTMetrics) TotalCount() int64 {
+	m.countersLock.Lock()
+	defer m.countersLock.Unlock()
 	return m.total.Count()
 }
 
 // NetworkErrorCount returns total count of processed requests observed.
 func (m *RTMetrics) NetworkErrorCount() int64 {
+	m.countersLock.Lock()
+	defer m.countersLock.Unlock()
 	return m.netErrors.Count()
 }
 
 // StatusCodesCounts returns map with counts of the response codes.
 func (m *RTMetrics) StatusCodesCounts() map[int]int64 {
 	sc := make(map[int]int64)
-	m.statusCodesLock.RLock()
-	defer m.statusCodesLock.RUnlock()
+	m.statusCodesLock.Lock()
+	defer m.statusCodesLock.Unlock()
 	for k, v := range m.statusCodes {
 		if v.Count() != 0 {
 			sc[k] = v.Count()
@@ -216,6 +233,8 @@ func (m *RTMetrics) LatencyHistogram() (*HDRHistogram, error) {
 
 // Reset reset metrics.
 func (m *RTMetrics) Reset() {
+	m.countersLock.Lock()
+	defer m.countersLock.Unlock()
 	m.statusCodesLock.Lock()
 	defer m.statusCodesLock.Unlock()
 	m.histogramLock.Lock()
